@@ -5,6 +5,7 @@
    (iv)  constant_liar_acquisition_function_optimization as a fold with a stub optimiser   compute/acquisition_function_optimization.py
    (v)   search_strategy_optimization as a fold with a stub optimiser     views/rest/search_next_points.py, compute/search.py
    (vi)  how the suggestion endpoints feed the request's pending points   views/view.py, views/rest/{gp,spe,search}_next_points*.py
+   (vii) the Parzen constant liar on an estimator that already holds lies, and the endpoint sequence around it   views/rest/spe_next_points.py
    Values are exact rationals (every finite double is one).  Mutation is state passing. *)
 From Coq Require Import List QArith Bool Arith.
 Import ListNotations.
@@ -282,6 +283,32 @@ Definition feed_parzen (s : pz) (pending : list point) : pz * option err := pz_a
 (* SearchNextPoints.next_points_probability_improvement: repulsors = sampled ++ pending, mapped to the search cube *)
 Definition feed_search (to_cube : point -> point) (sampled pending : list point) (d : Q) : search_af :=
   mkSearch (map to_cube (sampled ++ pending)) d.
+
+(* ------------------------------------------------------------------------------------------------ (vii) Parzen constant liar
+   SPENextPoints.suggest_next_points_constant_liar(pe, n, domain, num_multistarts) on a LIVE estimator - one that may already
+   hold lies (the request's pending points, appended by create_spe_suggestions before draw_samples calls this routine):
+       lie_data = pe.stash_lies()
+       n times:  p = optimise(pe);  pe.append_lies([p])          (greater set: lower defaults to False)
+       pe.recover_lies(lie_data)
+   The optimiser is an arbitrary function of the estimator as it is at that moment.  Returns the picks, the estimator state
+   each optimisation ran against, and the state the caller gets back. *)
+Definition pz_append1 (s : pz) (p : point) : pz := fst (pz_append s [p] false).
+Definition pz_constant_liar (pick : pz -> point) (n : nat) (s : pz) : list point * list pz * pz :=
+  let lo := p_lower_lies s in
+  let gr := p_greater_lies s in                                    (* stash_lies: deep copies of the two lie lists *)
+  let '(ps, ss) := cl_loop pz_append1 pick n s in
+  (ps, ss, fst (pz_recover (fold_left pz_append1 ps s) lo gr)).
+
+(* SPENextPoints.create_spe_suggestions from the formed estimator on, then the head of draw_samples:
+       pe.append_lies(list(pending))
+       max_location = suggest_next_points_constant_liar(pe, 1, ...)[0]
+       max_value = pe.evaluate_expected_improvement(max_location); the rejection sampler evaluates EI on pe over and over
+   Returns (max_location, the estimator the optimiser saw, the estimator every later expected-improvement evaluation runs on). *)
+Definition spe_sampling (pick : pz -> point) (s : pz) (pending : list point) : (point * pz * pz) + err :=
+  match feed_parzen s pending with
+  | (s1, None) => let '(ps, ss, s2) := pz_constant_liar pick 1 s1 in inl (hd [] ps, hd s1 ss, s2)
+  | (_, Some e) => inr e
+  end.
 
 (* ------------------------------------------------------------------------------------------------ decidable helpers *)
 Definition list_eqb {A} (eq : A -> A -> bool) := fix go (a b : list A) : bool :=
